@@ -147,25 +147,15 @@ func SpecEofList(lines [][]byte) [][]byte {
 	return append(append([][]byte{}, lines[:SpecEofIdx(lines, len(lines)-1)+1]...), []byte{})
 }
 
-func OpaqueSplitNL(s []byte) [][]byte { return bytes.Split(s, []byte("\n")) }
-func OpaqueJoinNL(l [][]byte) []byte  { return bytes.Join(l, []byte("\n")) }
 
-//@ extern bytes.Split
-//@   params s sep
-//@   results r
-//@   ensures implies(sep == "\n", r == OpaqueSplitNL(s))
 
-//@ extern bytes.Join
-//@   params l sep
-//@   results r
-//@   ensures implies(sep == "\n", r == OpaqueJoinNL(l))
 
 //@ contract TestRenumberer.processYaml
 //@   tags C13 C17
 //@   opt scan-complete C17
 //@   opt termination C13
 //@   results out err
-//@   ensures[C13] renumbered: implies(err == nil, out == OpaqueJoinNL(SpecEofList(OpaqueSplitNL(SpecOut(ruleId, utils.OpaqueScanLines(string(contents)), len(utils.OpaqueScanLines(string(contents))))))))
+//@   ensures[C13] renumbered: implies(err == nil, out == utils.OpaqueJoinNL(SpecEofList(utils.OpaqueSplitNL(SpecOut(ruleId, utils.OpaqueScanLines(string(contents)), len(utils.OpaqueScanLines(string(contents))))))))
 //@   loop 0 invariant[C13] scanLines(scanner) == utils.OpaqueScanLines(string(contents)) && 0 <= scanPos(scanner) && scanPos(scanner) <= len(scanLines(scanner))
 //@   loop 0 invariant[C13] idCount == SpecIdCount(scanLines(scanner), scanPos(scanner))
 //@   loop 0 invariant[C13] titleCount == SpecTitleCount(scanLines(scanner), scanPos(scanner))
